@@ -44,7 +44,7 @@ CHECKS = {
    note="trusted: reference model (levels) and standalone help rendering as the reference text",
    tech="property-based testing against the reference grammar model, plus differential help text per command level"),
  "C19": dict(
-   text="property-based search over four adjacent-group shapes x wrappers with 0-3 blocks placed among other options, with block mutations (cut short, split by a foreign item, lead not first, members reordered); by-construction expectation and a contiguity predicate on every accepted value",
+   text="property-based search over four adjacent-group shapes x wrappers with 0-3 blocks placed among other options (a top-level word may stand in front), a second family of positional pairs right of `--`, with block mutations (cut short, split by a foreign item, lead not first, members reordered); by-construction expectation and a contiguity predicate on every accepted value",
    note="trusted: the generator's block bookkeeping (which item belongs to which block, which item is foreign)",
    tech="property-based testing: by-construction values for well-formed lines, must-fail mutants, validity predicate (contiguous run starting at the lead) on accepted lines"),
  "C12": dict(
@@ -76,12 +76,12 @@ CHECKS = {
    note="trusted: reference model + env rule; workers are separate single-threaded processes so set_var/remove_var cannot race",
    tech="property-based testing against the reference grammar model extended with the documented env rule + metamorphic + child-process cross-check"),
  "C20": dict(
-   text="differential over five builds of the same corpus runner (none / autocomplete / autocomplete+docgen+batteries+derive / dull-color / bright-color) on a proptest-generated corpus (40k cases quick); byte-identical dumps required; a difference is minimised across the two disagreeing builds",
+   text="differential over five builds of the same corpus runner (none / autocomplete / autocomplete+docgen+batteries+derive / dull-color / bright-color) on a proptest-generated corpus (40k cases quick); byte-identical dumps required; a difference is minimised across the two disagreeing builds; for 150 cases per run (1500 thorough) the message bpaf prints itself (print_message, the path of run()) to piped stdout/stderr is compared across the builds as well",
    note="trusted: the corpus decoder is feature independent (completers are simply not attached where the feature is absent); panic locations are not compared, messages are",
    tech="property-based testing, differential between cargo feature builds of one generated corpus"),
  "C17": dict(
-   text="differential between #[derive(Bpaf)] and the documented hand-written equivalent over a generated family of types (40 per seed in quick, 4x150 in thorough), both compiled into one executable and run on generated argument vectors (20k in quick): equal values, equal failure class, equal text, equal help",
-   note="trusted: the twin printer in harness/src/c17gen.rs as a reading of the documented derive rules; a family that does not compile is reported as exit 2 (infrastructure), not as a violation",
+   text="differential between #[derive(Bpaf)] and the documented hand-written equivalent over a generated family of types (96 per seed in quick, 320 in thorough; doc layouts and explicit overrides stratified over the type index; structs, enums, command enums, options structs embedding a parser-mode struct through external), both compiled into one executable and run on generated argument vectors (20k in quick): equal values, equal failure class, equal text, equal help",
+   note="trusted: the twin printer in harness/src/c17gen.rs as a reading of the documented derive rules; a family that rustc rejects is the verdict derived-type-does-not-compile, any other build problem exit 2",
    tech="property-based testing, differential (derive macro vs generated hand-written combinators) over a seeded family of type definitions"),
 }
 
